@@ -81,10 +81,21 @@ func VerifHarness_C05_StructAssign() {
 	source := xtype.TypeOf(verifNamed("In", inPkg, types.NewStruct(srcFields, nil)))
 
 	// ---- target struct: one field under test (+ one always matching field), in the user's or another package
+	// The field may have been declared in another package than the one the struct's type name lives in
+	// (`type Out other.Record`), and the struct may have no type name at all: accessibility follows the field.
 	tgtPkg := inPkg
+	fieldPkg := inPkg
+	if nondetChoice("target.field-declared-elsewhere", 2) == 1 {
+		fieldPkg = types.NewPackage("example.org/model", "model")
+	}
 	tname := []string{"Name", "hidden", "Deep"}[nondetChoice("target.name", 3)]
-	tgtFields := []*types.Var{types.NewField(0, tgtPkg, tname, types.Typ[types.Int], false)}
-	target := xtype.TypeOf(verifNamed("Out", tgtPkg, types.NewStruct(tgtFields, nil)))
+	tgtFields := []*types.Var{types.NewField(0, fieldPkg, tname, types.Typ[types.Int], false)}
+	var target *xtype.Type
+	if nondetChoice("target.unnamed", 2) == 1 {
+		target = xtype.TypeOf(types.NewStruct(tgtFields, nil))
+	} else {
+		target = xtype.TypeOf(verifNamed("Out", tgtPkg, types.NewStruct(tgtFields, nil)))
+	}
 	exported := tname != "hidden"
 
 	// ---- settings
@@ -126,7 +137,7 @@ func VerifHarness_C05_StructAssign() {
 	_, err := (&Struct{}).Assign(gen, ctx, AssignOf(jen.Id("t")), xtype.VariableID(jen.Id("s")), source, target, nil)
 
 	// ---- reference
-	accessible := exported || samePkgOutput
+	accessible := exported || out == fieldPkg.Path()
 	has := func(n string) bool {
 		for _, o := range srcNames {
 			if o == n {
